@@ -35,6 +35,9 @@ func GenC11() *rapid.Generator[C11Case] {
 	gg := genGenomeSpec(GenomeCfg{Modules: true, MinGenes: 1, Big: true})
 	return rapid.Custom(func(t *rapid.T) C11Case {
 		c := C11Case{G: gg.Draw(t, "genome")}
+		if len(c.G.Modules) > 0 && rapid.IntRange(0, 2).Draw(t, "node behind the modules") == 0 {
+			c.G = addNodeBehindModules(c.G)
+		}
 		if rapid.IntRange(0, 2).Draw(t, "expressed before") == 0 {
 			return c
 		}
